@@ -171,8 +171,9 @@ Proof. rewrite forallb_forall, Forall_forall. reflexivity. Qed.
 
 Lemma field_ok vs : vs <> [] -> forallb wf_val vs = true ->
   closed is_space (render_field vs) /\
-  split_func is_colon (render_field vs) = Some (map render_val vs) /\
+  (forall keep, split_func keep is_colon (render_field vs) = Some (map render_val vs)) /\
   has_prefix_colon (render_field vs) = false /\ has_suffix_colon (render_field vs) = false /\
+  existsb is_nil (map render_val vs) = false /\
   map remove_quote (map render_val vs) = map text vs.
 Proof. intros Hne Hwf. apply forallb_Forall in Hwf. unfold render_field.
   assert (Hm : map render_val vs <> []) by (destruct vs; [congruence|discriminate]).
@@ -182,13 +183,14 @@ Proof. intros Hne Hwf. apply forallb_Forall in Hwf. unfold render_field.
   - now apply join_nonempty.
   - apply closed_join; [reflexivity|reflexivity|exact Hm|]. apply Forall_map. eapply Forall_impl; [|exact Hwf].
     intros x Hx. now apply closed_render; [apply sep_ok_space|].
-  - apply split_func_join; [reflexivity|reflexivity|exact Hm|]. apply Forall_map. eapply Forall_impl; [|exact Hwf].
+  - intros keep. apply split_func_join; [reflexivity|reflexivity|exact Hm|]. apply Forall_map. eapply Forall_impl; [|exact Hwf].
     intros x Hx. now apply closed_render; [apply sep_ok_colon|].
   - destruct vs as [|x rest]; [congruence|]. cbn [map]. inversion Hwf; subst. inversion Hnn; subst.
     rewrite join_prefix by assumption. now apply render_prefix.
   - rewrite join_suffix by assumption. destruct vs as [|x rest]; [congruence|].
     rewrite (last_indep _ [] (render_val x)) by exact Hm. rewrite last_map by exact Hne. apply render_suffix.
     rewrite Forall_forall in Hwf. apply Hwf. now apply last_In.
+  - clear - Hnn. induction Hnn as [|w l Hw _ IH]; [reflexivity|]. cbn. rewrite IH. now destruct w.
   - rewrite map_map. apply map_ext_in. intros x Hx. apply remove_quote_render. rewrite Forall_forall in Hwf. now apply Hwf. Qed.
 
 (* ------------------------------------------------------------------ items of the documented language *)
@@ -239,10 +241,20 @@ Definition wf_lex (its : list item) : bool := forallb wf_lex_item its.
 Definition tok_of (cs : list str) : option token :=
   match cs with [a] => Some (TSearch a) | [a; b] => Some (TKV a b) | [a; b; c] => Some (TKVV a b c) | _ => None end.
 
-Lemma tokenize_fields_cons f rest : tokenize_fields (f :: rest) =
-  match split_func is_colon f with
+Lemma tokenize_fields_k_cons strict f rest : tokenize_fields_k strict (f :: rest) =
+  match split_func strict is_colon f with
   | None => None
   | Some chunks => if has_prefix_colon f || has_suffix_colon f then None else
+                   if existsb is_nil chunks then None else
+                   match tok_of (map remove_quote chunks), tokenize_fields_k strict rest with
+                   | Some tk, Some tks => Some (tk :: tks) | _, _ => None end
+  end.
+Proof. reflexivity. Qed.
+Lemma tokenize_fields_cons f rest : tokenize_fields (f :: rest) =
+  match split_func true is_colon f with
+  | None => None
+  | Some chunks => if has_prefix_colon f || has_suffix_colon f then None else
+                   if existsb is_nil chunks then None else
                    match tok_of (map remove_quote chunks), tokenize_fields rest with
                    | Some tk, Some tks => Some (tk :: tks) | _, _ => None end
   end.
@@ -256,16 +268,20 @@ Proof. destruct it as [v|[|] v|v|v|v|v|v|k v|v|v]; cbn; intros H; rewrite ?H; re
 Lemma item_field it : wf_lex_item it = true -> closed is_space (render_item it).
 Proof. intros H. destruct (wf_vals_of it H) as (Hw & Hne & _). now destruct (field_ok _ Hne Hw). Qed.
 
-Lemma tokenize_fields_render its : wf_lex its = true -> tokenize_fields (map render_item its) = Some (map token_of its).
+Lemma tokenize_fields_k_render strict its : wf_lex its = true -> tokenize_fields_k strict (map render_item its) = Some (map token_of its).
 Proof. induction its as [|it rest IH]; [reflexivity|]. cbn [wf_lex forallb map]. intros H. apply andb_true_iff in H as [Hi Hr].
-  destruct (wf_vals_of it Hi) as (Hw & Hne & Ht). destruct (field_ok _ Hne Hw) as (_ & Hs & Hp & Hx & Hq).
-  rewrite tokenize_fields_cons. unfold render_item at 1 2 3. rewrite Hs, Hp, Hx, Hq, Ht. cbn [orb].
+  destruct (wf_vals_of it Hi) as (Hw & Hne & Ht). destruct (field_ok _ Hne Hw) as (_ & Hs & Hp & Hx & Hn & Hq).
+  rewrite tokenize_fields_k_cons. unfold render_item at 1 2 3. rewrite Hs, Hp, Hx, Hn, Hq, Ht. cbn [orb].
   now rewrite (IH Hr). Qed.
 
-Theorem tokenize_render its : wf_lex its = true -> tokenize (render its) = Some (map token_of its).
-Proof. intros H. unfold tokenize, render. destruct its as [|it rest]; [reflexivity|].
-  rewrite split_func_join; [now apply tokenize_fields_render|reflexivity|reflexivity|discriminate|].
+(* holds for the strict lexer and for the lenient one: a rendered query has no empty chunk *)
+Theorem tokenize_k_render strict its : wf_lex its = true -> tokenize_k strict (render its) = Some (map token_of its).
+Proof. intros H. unfold tokenize_k, render. destruct its as [|it rest]; [reflexivity|].
+  rewrite split_func_join; [now apply tokenize_fields_k_render|reflexivity|reflexivity|discriminate|].
   apply Forall_map. apply forallb_Forall in H. eapply Forall_impl; [|exact H]. intros x Hx. now apply item_field. Qed.
+
+Theorem tokenize_render its : wf_lex its = true -> tokenize (render its) = Some (map token_of its).
+Proof. exact (tokenize_k_render true its). Qed.
 
 (* ------------------------------------------------------------------ what a list of items denotes *)
 
@@ -334,7 +350,7 @@ Proof. induction its as [|it rest IH]; intros q Hw Hc; [reflexivity|]. cbn [fora
 
 Theorem parse_render its : wf_items its = true -> parse (render its) = Some (denote its).
 Proof. unfold wf_items. intros H. apply andb_true_iff in H as [H Hc]. apply andb_true_iff in H as [Hl Hs].
-  unfold parse. rewrite tokenize_render by exact Hl. apply steps_items; [exact Hs|]. apply Nat.leb_le in Hc. cbn. lia. Qed.
+  unfold parse, parse_k. fold tokenize. rewrite tokenize_render by exact Hl. apply steps_items; [exact Hs|]. apply Nat.leb_le in Hc. cbn. lia. Qed.
 
 (* ---- the denotation, field by field ---- *)
 
@@ -546,44 +562,52 @@ Fixpoint qstate (s : str) (q : option rune) : option rune :=
   end.
 Definition unmatched_quote (s : str) : bool := match qstate s None with Some _ => true | None => false end.
 
-Lemma split_go_qstate sep s : forall q chunk acc, split_go sep s q chunk acc = None <-> qstate s q <> None.
+Lemma split_go_qstate keep sep s : forall q chunk acc, split_go keep sep s q chunk acc = None <-> qstate s q <> None.
 Proof. induction s as [|r t IH]; intros q chunk acc; cbn.
   - destruct q; split; intros H; congruence.
   - destruct q as [lq|]; [destruct (N.eqb r lq); apply IH|]. destruct (is_quote r); [apply IH|]. destruct (sep r); apply IH. Qed.
 
-Lemma split_func_none sep s : split_func sep s = None <-> unmatched_quote s = true.
+Lemma split_func_none keep sep s : split_func keep sep s = None <-> unmatched_quote s = true.
 Proof. unfold split_func, unmatched_quote. rewrite split_go_qstate. destruct (qstate s None); split; intros H; congruence. Qed.
 
 Theorem reject_unmatched_quote s : unmatched_quote s = true -> parse s = None.
-Proof. intros H. unfold parse, tokenize. apply (split_func_none is_space) in H. now rewrite H. Qed.
+Proof. intros H. unfold parse, parse_k, tokenize_k. apply (split_func_none false is_space) in H. now rewrite H. Qed.
 
 Definition field_tok (f : str) : option token :=
-  match split_func is_colon f with
+  match split_func true is_colon f with
   | None => None
-  | Some chunks => if has_prefix_colon f || has_suffix_colon f then None else tok_of (map remove_quote chunks)
+  | Some chunks => if has_prefix_colon f || has_suffix_colon f then None else
+                   if existsb is_nil chunks then None else tok_of (map remove_quote chunks)
   end.
 
 Lemma tokenize_fields_cons' f rest : tokenize_fields (f :: rest) =
   match field_tok f, tokenize_fields rest with Some tk, Some tks => Some (tk :: tks) | _, _ => None end.
-Proof. rewrite tokenize_fields_cons. unfold field_tok. destruct (split_func is_colon f); [|reflexivity].
-  destruct (has_prefix_colon f || has_suffix_colon f); reflexivity. Qed.
+Proof. rewrite tokenize_fields_cons. unfold field_tok. destruct (split_func true is_colon f) as [chunks|]; [|reflexivity].
+  destruct (has_prefix_colon f || has_suffix_colon f); [reflexivity|]. destruct (existsb is_nil chunks); reflexivity. Qed.
 
 Lemma tokenize_fields_bad fs f : In f fs -> field_tok f = None -> tokenize_fields fs = None.
 Proof. induction fs as [|g rest IH]; intros Hin Hb; [destruct Hin|]. rewrite tokenize_fields_cons'.
   destruct Hin as [->|Hin]; [now rewrite Hb|]. rewrite (IH Hin Hb). now destruct (field_tok g). Qed.
 
-Lemma parse_bad_field s fields f : split_func is_space s = Some fields -> In f fields -> field_tok f = None -> parse s = None.
-Proof. intros Hs Hin Hb. unfold parse, tokenize. rewrite Hs. now rewrite (tokenize_fields_bad fields f Hin Hb). Qed.
+Lemma parse_bad_field s fields f : split_func false is_space s = Some fields -> In f fields -> field_tok f = None -> parse s = None.
+Proof. intros Hs Hin Hb. unfold parse, parse_k, tokenize_k. rewrite Hs. fold tokenize_fields. now rewrite (tokenize_fields_bad fields f Hin Hb). Qed.
 
-Theorem reject_colon_edge s fields f : split_func is_space s = Some fields -> In f fields ->
+Theorem reject_colon_edge s fields f : split_func false is_space s = Some fields -> In f fields ->
   has_prefix_colon f || has_suffix_colon f = true -> parse s = None.
-Proof. intros Hs Hin Hc. apply (parse_bad_field s fields f Hs Hin). unfold field_tok. rewrite Hc. now destruct (split_func is_colon f). Qed.
+Proof. intros Hs Hin Hc. apply (parse_bad_field s fields f Hs Hin). unfold field_tok. rewrite Hc. now destruct (split_func true is_colon f). Qed.
 
-Theorem reject_too_many_separators s fields f chunks : split_func is_space s = Some fields -> In f fields ->
-  split_func is_colon f = Some chunks -> (3 < length chunks)%nat -> parse s = None.
+Theorem reject_too_many_separators s fields f chunks : split_func false is_space s = Some fields -> In f fields ->
+  split_func true is_colon f = Some chunks -> (3 < length chunks)%nat -> parse s = None.
 Proof. intros Hs Hin Hc Hl. apply (parse_bad_field s fields f Hs Hin). unfold field_tok. rewrite Hc.
-  destruct (has_prefix_colon f || has_suffix_colon f); [reflexivity|].
+  destruct (has_prefix_colon f || has_suffix_colon f); [reflexivity|]. destruct (existsb is_nil chunks); [reflexivity|].
   destruct chunks as [|a [|b [|c [|d rest]]]]; cbn in Hl; try lia. reflexivity. Qed.
+
+(* an empty chunk: nothing between two colons (at the edges it is the case above) *)
+Theorem reject_empty_chunk s fields f chunks : split_func false is_space s = Some fields -> In f fields ->
+  split_func true is_colon f = Some chunks -> In [] chunks -> parse s = None.
+Proof. intros Hs Hin Hc He. apply (parse_bad_field s fields f Hs Hin). unfold field_tok. rewrite Hc.
+  destruct (has_prefix_colon f || has_suffix_colon f); [reflexivity|].
+  assert (E : existsb is_nil chunks = true) by (apply existsb_exists; now exists []). now rewrite E. Qed.
 
 (* the fields of a string are what white space outside quotations separates; a quoted colon does not count *)
 
@@ -615,7 +639,7 @@ Lemma step_second_sort v q : q_sorted q = true -> step q (TKV k_sort v) = None.
 Proof. intros Hs. unfold step. cbn. now rewrite Hs. Qed.
 
 Lemma parse_bad_token s ts t : tokenize s = Some ts -> In t ts -> (forall q, step q t = None) -> parse s = None.
-Proof. intros Ht Hin Hb. unfold parse. rewrite Ht. now apply (steps_bad ts t). Qed.
+Proof. intros Ht Hin Hb. unfold parse, parse_k. fold tokenize. rewrite Ht. now apply (steps_bad ts t). Qed.
 
 Theorem reject_unknown_qualifier s ts k v : tokenize s = Some ts -> In (TKV k v) ts -> known_key k = false -> parse s = None.
 Proof. intros Ht Hin Hk. apply (parse_bad_token s ts _ Ht Hin). intros q. now apply step_unknown_kv. Qed.
@@ -650,7 +674,7 @@ Proof. unfold step. cbn. destruct (q_sorted q); [discriminate|]. destruct (sorti
   intros H. inversion H. reflexivity. Qed.
 
 Theorem reject_second_sort s a v1 b v2 c : tokenize s = Some (a ++ TKV k_sort v1 :: b ++ TKV k_sort v2 :: c) -> parse s = None.
-Proof. intros Ht. unfold parse. rewrite Ht. rewrite steps_app. destruct (steps q0 a) as [qa|]; [|reflexivity].
+Proof. intros Ht. unfold parse, parse_k. fold tokenize. rewrite Ht. rewrite steps_app. destruct (steps q0 a) as [qa|]; [|reflexivity].
   cbn [steps]. destruct (step qa (TKV k_sort v1)) as [q1|] eqn:E1; [|reflexivity]. apply step_sort_sets in E1.
   rewrite steps_app. destruct (steps q1 b) as [qb|] eqn:Eb; [|reflexivity].
   cbn [steps]. now rewrite step_second_sort by (eapply steps_sorted_mono; eauto). Qed.
@@ -676,7 +700,7 @@ Proof. induction its as [|it rest IH]; intros q Hc; [cbn in Hc; destruct (q_sort
 
 Theorem reject_render its : wf_lex its = true ->
   (existsb (fun it => negb (wf_sem_item it)) its = true \/ (2 <= count_sort its)%nat) -> parse (render its) = None.
-Proof. intros Hl H. unfold parse. rewrite tokenize_render by exact Hl. destruct H as [H|H].
+Proof. intros Hl H. unfold parse, parse_k. fold tokenize. rewrite tokenize_render by exact Hl. destruct H as [H|H].
   - apply existsb_exists in H as (it & Hin & Hb). apply negb_true_iff in Hb.
     apply (steps_bad _ (token_of it)); [now apply in_map|]. intros q. now apply step_item_bad.
   - apply steps_two_sorts. cbn. lia. Qed.
@@ -701,16 +725,18 @@ Proof. induction ts as [|t rest IH]; intros q q' H Hv Hs; cbn in H; [inversion H
   destruct (step q t) eqn:E; [|discriminate]. destruct (step_valid _ _ _ E Hv Hs). eapply IH; eauto. Qed.
 
 Theorem parse_valid s q : parse s = Some q -> valid_sort (q_orderby q) (q_dir q) = true /\ forallb valid_status (q_status q) = true.
-Proof. unfold parse. destruct (tokenize s); [|discriminate]. intros H. eapply steps_valid; eauto. Qed.
+Proof. unfold parse, parse_k. destruct (tokenize_k true s); [|discriminate]. intros H. eapply steps_valid; eauto. Qed.
 
 (* ------------------------------------------------------------------ the rejection classes are exhaustive *)
 
 (* the reasons for which the parser refuses a string *)
 Inductive malformed (s : str) : Prop :=
 | M_quote : unmatched_quote s = true -> malformed s
-| M_field_quote fields f : split_func is_space s = Some fields -> In f fields -> unmatched_quote f = true -> malformed s
-| M_colon_edge fields f : split_func is_space s = Some fields -> In f fields -> has_prefix_colon f || has_suffix_colon f = true -> malformed s
-| M_separators fields f chunks : split_func is_space s = Some fields -> In f fields -> split_func is_colon f = Some chunks ->
+| M_field_quote fields f : split_func false is_space s = Some fields -> In f fields -> unmatched_quote f = true -> malformed s
+| M_colon_edge fields f : split_func false is_space s = Some fields -> In f fields -> has_prefix_colon f || has_suffix_colon f = true -> malformed s
+| M_empty_chunk fields f chunks : split_func false is_space s = Some fields -> In f fields -> split_func true is_colon f = Some chunks ->
+    In [] chunks -> malformed s
+| M_separators fields f chunks : split_func false is_space s = Some fields -> In f fields -> split_func true is_colon f = Some chunks ->
     (length chunks = 0 \/ 3 < length chunks)%nat -> malformed s
 | M_qualifier ts k v : tokenize s = Some ts -> In (TKV k v) ts -> known_key k = false -> malformed s
 | M_subqualifier ts k sk v : tokenize s = Some ts -> In (TKVV k sk v) ts -> str_eqb k k_metadata = false -> malformed s
@@ -751,7 +777,7 @@ Proof. induction ts as [|t rest IH]; intros q q' H Hs Hs'; cbn in H; [inversion 
   - destruct (IH q1 q' H E1 Hs') as (a & v & b & ->). now exists (t :: a), v, b. Qed.
 
 Theorem rejects_complete s : parse s = None -> malformed s.
-Proof. unfold parse. destruct (tokenize s) as [ts|] eqn:Et.
+Proof. unfold parse, parse_k. fold tokenize. destruct (tokenize s) as [ts|] eqn:Et.
   - intros H. destruct (steps_none ts q0 H) as (a & t & b & qa & -> & Ha & Ht).
     assert (Hin : In t (a ++ t :: b)) by (apply in_or_app; right; now left).
     destruct t as [k v|k sk v|x]; cbn in Ht.
@@ -770,19 +796,22 @@ Proof. unfold parse. destruct (tokenize s) as [ts|] eqn:Et.
       apply orb_false_iff in E1 as [E0 E1]. eapply M_qualifier; eauto. unfold known_key. now rewrite E0, E1, E2, E3, E4, E5, E6, E7, E8.
     + destruct (str_eqb k k_metadata) eqn:E; [discriminate|]. eapply M_subqualifier; eauto.
     + discriminate.
-  - intros _. unfold tokenize in Et. destruct (split_func is_space s) as [fields|] eqn:Es.
-    + destruct (tokenize_fields_none fields Et) as (f & Hin & Hb). unfold field_tok in Hb.
-      destruct (split_func is_colon f) as [chunks|] eqn:Ec.
+  - intros _. unfold tokenize, tokenize_k in Et. destruct (split_func false is_space s) as [fields|] eqn:Es.
+    + fold tokenize_fields in Et. destruct (tokenize_fields_none fields Et) as (f & Hin & Hb). unfold field_tok in Hb.
+      destruct (split_func true is_colon f) as [chunks|] eqn:Ec.
       * destruct (has_prefix_colon f || has_suffix_colon f) eqn:Ep; [eapply M_colon_edge; eauto|].
+        destruct (existsb is_nil chunks) eqn:En.
+        { apply existsb_exists in En as (c & Hc & Hn). destruct c; [|discriminate]. eapply M_empty_chunk; eauto. }
         apply tok_of_none in Hb. rewrite map_length in Hb. eapply M_separators; eauto.
       * apply split_func_none in Ec. eapply M_field_quote; eauto.
     + apply split_func_none in Es. now apply M_quote. Qed.
 
 Theorem rejects_sound s : malformed s -> parse s = None.
-Proof. intros [H|fields f Hs Hin H|fields f Hs Hin H|fields f chunks Hs Hin Hc [H|H]|ts k v Ht Hin H|ts k sk v Ht Hin H|ts k v Ht Hin Hk H|ts v Ht Hin H|ts v Ht Hin H|a v1 b v2 c Ht].
+Proof. intros [H|fields f Hs Hin H|fields f Hs Hin H|fields f chunks Hs Hin Hc H|fields f chunks Hs Hin Hc [H|H]|ts k v Ht Hin H|ts k sk v Ht Hin H|ts k v Ht Hin Hk H|ts v Ht Hin H|ts v Ht Hin H|a v1 b v2 c Ht].
   - now apply reject_unmatched_quote.
-  - apply (parse_bad_field s fields f Hs Hin). unfold field_tok. apply (split_func_none is_colon) in H. now rewrite H.
+  - apply (parse_bad_field s fields f Hs Hin). unfold field_tok. apply (split_func_none true is_colon) in H. now rewrite H.
   - eapply reject_colon_edge; eauto.
+  - eapply reject_empty_chunk; eauto.
   - apply (parse_bad_field s fields f Hs Hin). unfold field_tok. rewrite Hc. destruct (has_prefix_colon f || has_suffix_colon f); [reflexivity|].
     destruct chunks; [reflexivity|discriminate].
   - eapply reject_too_many_separators; eauto.
@@ -792,3 +821,9 @@ Proof. intros [H|fields f Hs Hin H|fields f Hs Hin H|fields f chunks Hs Hin Hc [
   - eapply reject_unknown_no; eauto.
   - eapply reject_unknown_sort; eauto.
   - eapply reject_second_sort; eauto. Qed.
+
+(* the lexer as it was: status::open is malformed and accepted *)
+Theorem empty_chunk_lenient_refuted : exists s, malformed s /\ parse_lenient s <> None.
+Proof. exists (k_status ++ [58; 58] ++ s_open). split; [|vm_compute; discriminate].
+  apply (M_empty_chunk _ [k_status ++ [58; 58] ++ s_open] (k_status ++ [58; 58] ++ s_open) [k_status; []; s_open]);
+  [reflexivity|now left|reflexivity|right; now left]. Qed.
